@@ -19,9 +19,10 @@ class LostAnchor(Exception):
 
 
 class Weaver:
-    def __init__(self, repo, vacuity=False):
+    def __init__(self, repo, vacuity=False, force_lost=None):
         self.repo = repo
         self.vacuity = vacuity
+        self.force_lost = force_lost or {}   # fn path -> reason: keep under contract only (the front end rejected its text)
         self.modules = []          # list of dict(name, src, chunks[])
         self.cur = None
         self.cur_impl = None
@@ -136,6 +137,8 @@ class Weaver:
         q = '%s::%s%s' % (self.cur['name'], (self._impl_short(within) + '::') if within else '', name)
         lost = None
         try:
+            if q in self.force_lost and not trusted:
+                raise LostAnchor(self.force_lost[q])
             body = self._apply_rewrites(raw, rewrites, q)
             body = self._normalise(body, 'fn', trait_impl=trait_impl)
             if vis is not None:
@@ -402,7 +405,7 @@ class Weaver:
         if mutself:
             hd += ' let mut this = self;'
         if head:
-            hd += '\n' + head.strip('\n') + '\n'
+            hd += '\n/*@HINT<*/' + head.strip('\n') + '/*@HINT>*/\n'
         edits.append((st[bo].start, st[bo].end, ('\n' + spec if spec else '') + '{' + hd))
         # loops
         loop_toks = [i for i in range(bo + 1, bc) if st[i].kind == 'ident' and st[i].text in ('loop', 'while', 'for')
@@ -447,20 +450,20 @@ class Weaver:
                 j += 1
             jc = match_index(st, j)
             if spec_l.get('body_head'):
-                edits.append((st[j].end, st[j].end, '\n' + spec_l['body_head'].strip('\n') + '\n'))
+                edits.append((st[j].end, st[j].end, '\n/*@HINT<*/' + spec_l['body_head'].strip('\n') + '/*@HINT>*/\n'))
             if spec_l.get('body_tail'):
                 edits.append((st[jc].start, st[jc].start, '\n' + spec_l['body_tail'].strip('\n') + '\n'))
             if spec_l.get('before'):
-                edits.append((st[li].start, st[li].start, spec_l['before'].strip('\n') + '\n'))
+                edits.append((st[li].start, st[li].start, '/*@HINT<*/' + spec_l['before'].strip('\n') + '/*@HINT>*/\n'))
             if spec_l.get('after'):
-                edits.append((st[jc].end, st[jc].end, '\n' + spec_l['after'].strip('\n') + '\n'))
+                edits.append((st[jc].end, st[jc].end, '\n/*@HINT<*/' + spec_l['after'].strip('\n') + '/*@HINT>*/\n'))
         # anchored insertions
         for anchor, ins in before:
             p = _unique(body, anchor, q, st[bo].start)
-            edits.append((p, p, ins.strip('\n') + '\n'))
+            edits.append((p, p, '/*@HINT<*/' + ins.strip('\n') + '/*@HINT>*/\n'))
         for anchor, ins in after:
             p = _unique(body, anchor, q, st[bo].start) + len(anchor)
-            edits.append((p, p, '\n' + ins.strip('\n') + '\n'))
+            edits.append((p, p, '\n/*@HINT<*/' + ins.strip('\n') + '/*@HINT>*/\n'))
         return _apply_edits(body, edits)
 
     # ---------------------------------------------------------------- output
@@ -547,9 +550,17 @@ def index_output(text):
     """scan the woven file: obligation markers -> line ranges, function ranges"""
     obls = []
     fns = []
+    hints = []     # [first line, last line] of ghost text inserted by the contract files (proof hints)
+    hopen = None
     cur = None
     lines = text.split('\n')
     for ln, line in enumerate(lines, 1):
+        for m in re.finditer(r'/\*@HINT([<>])\*/', line):
+            if m.group(1) == '<':
+                hopen = ln
+            elif hopen is not None:
+                hints.append([hopen, ln])
+                hopen = None
         m = re.match(r'\s*// @FN (\S+)', line)
         if m:
             cur = {'path': m.group(1), 'start': ln, 'end': None}
@@ -575,6 +586,7 @@ def index_output(text):
         if end > o['line']:
             o['text'] = ' '.join(x.strip() for x in lines[o['line'] - 1:end])
             o['text'] = o['text'].split('*/', 1)[1].strip()
+    index_output.hints = hints
     return obls, fns
 
 
@@ -601,10 +613,10 @@ def scan_trusted(text):
     return found
 
 
-def build(repo, out_path, vacuity=False, contracts_dir=None, preamble_dir=None):
+def build(repo, out_path, vacuity=False, contracts_dir=None, preamble_dir=None, force_lost=None):
     contracts_dir = contracts_dir or os.path.join(VERIF, 'contracts')
     preamble_dir = preamble_dir or os.path.join(VERIF, 'preamble')
-    w = Weaver(repo, vacuity=vacuity)
+    w = Weaver(repo, vacuity=vacuity, force_lost=force_lost)
     order = [l.strip() for l in open(os.path.join(contracts_dir, 'ORDER')).read().split() if l.strip() and not l.startswith('#')]
     env = {'MODULE': w.MODULE, 'RAW': w.RAW, 'ITEM': w.ITEM, 'IMPL': w.IMPL, 'END': w.END, 'FN': w.FN, 'PROOF': w.PROOF,
            'VACUITY': vacuity, 'REPO': repo, 'LostAnchor': LostAnchor}
@@ -622,6 +634,7 @@ def build(repo, out_path, vacuity=False, contracts_dir=None, preamble_dir=None):
     rep = w.report
     rep['obligations'] = obls
     rep['fn_ranges'] = fns
+    rep['hint_ranges'] = index_output.hints
     rep['trusted_scan'] = scan_trusted(text)
     rep['woven_sha256'] = hashlib.sha256(text.encode()).hexdigest()
     with open(out_path + '.report.json', 'w') as f:
